@@ -44,15 +44,15 @@ def header(*, version, cluster_bits, size, l1_size, l1_offset, refcount_offset, 
 class CompArea:
     """Lazily compressed clusters: real compressed cluster `cid` lives at byte base + cid*slot (+ skew)."""
 
-    def __init__(self, base, slot, cluster_size, skew=37, level=6):
-        self.base, self.slot, self.cs, self.skew, self.level = base, slot, cluster_size, skew, level
+    def __init__(self, base, slot, cluster_size, skew=37, level=6, csalt=0):
+        self.base, self.slot, self.cs, self.skew, self.level, self.csalt = base, slot, cluster_size, skew, level, csalt
         self.cache = {}
 
     def stream(self, cid):
         b = self.cache.get(cid)
         if b is None:
             co = zlib.compressobj(self.level, zlib.DEFLATED, -12)
-            b = co.compress(patterns.cpat(cid, 0, self.cs)) + co.flush()
+            b = co.compress(patterns.cpat(cid + self.csalt, 0, self.cs)) + co.flush()
             assert len(b) + self.skew <= self.slot, ("compressed cluster does not fit its slot", len(b), self.slot)
             if len(self.cache) > 64:
                 self.cache.clear()
@@ -90,7 +90,7 @@ def build(img, *, cluster_bits, K=1, version=3, header_length=104, host_shift=0,
           comp_maximal=False, comp_base_cluster=None, file_id=0, data_fid=1, snapshots=(), extra_ext=(), name=None,
           incompat_extra=0, compression_type=None, crypt=0, size_bytes=None, reserved_l1_bits=0, l1_pad=0, lazy_desc=True,
           meta_base=2, snap_table=None, comp_level=6, want_extents=False, datafile_ext=True, backing_fmt_ext=True, end_marker=True, l1_garbage=False,
-          hdr_extra=None):
+          hdr_extra=None, csalt=0):
     """img: abstract Qcow2 image {"ext","datafile","l2n","s","l1","l2","back","size"}; K real clusters per abstract
     cluster.  Returns (image VirtualFile, data VirtualFile|None, info)."""
     cs = 1 << cluster_bits
@@ -114,7 +114,7 @@ def build(img, *, cluster_bits, K=1, version=3, header_length=104, host_shift=0,
     comp_cluster = l2_cluster0 + nl1 if comp_base_cluster is None else comp_base_cluster
     ncomp_real = (max([e["h"] for e in img["l2"].values() if e["t"] == "C"], default=-1) + 1) * K
     slot = max(256, cs // 8 + 128) if comp_level else cs + 128
-    comp = CompArea(comp_cluster * cs, slot, cs, level=comp_level)
+    comp = CompArea(comp_cluster * cs, slot, cs, level=comp_level, csalt=csalt)
     comp_clusters = -(-(ncomp_real * slot + 64) // cs) if ncomp_real else 0
     maxh = max([e["h"] for e in img["l2"].values() if e["t"] in ("N", "ZA")], default=-1)
     data_base = (comp_cluster + comp_clusters + host_shift) if not img["datafile"] else 0
